@@ -10,13 +10,38 @@ HEADER = "From Dasp Require Import Signal.SigRun."
 CHECK = "check"
 BIN = "c0405"
 
+def _f(coq, n, bits, off, flt, sbits=None, fw=32, gen=None):
+    return dict(coq=coq, n=n, bits=bits, off=off, flt=flt, sbits=sbits or bits, fw=fw, gen=gen)
+
+
+# bits/off: the sample type; sbits: width of its Signed companion (U24 -> i32, U48 -> i64: the signed
+# amplitude is scaled by 2^(sbits-bits)); fw: width of its Float companion; gen = (SampleFmt code, channels)
+# for the instances over the C03 sample model (Signal/SigRunGen.v), None for the five hand instances
 FMTS = {
-    "i16x2": dict(coq="I16x2", n=2, bits=16, off=0, flt=None),
-    "u8x3": dict(coq="U8x3", n=3, bits=8, off=128, flt=None),
-    "i32x1": dict(coq="I32x1", n=1, bits=32, off=0, flt=None),
-    "f64x1": dict(coq="F64x1", n=1, bits=0, off=0, flt=64),
-    "f32x2": dict(coq="F32x2", n=2, bits=0, off=0, flt=32),
+    "i16x2": _f("I16x2", 2, 16, 0, None),
+    "u8x3": _f("U8x3", 3, 8, 128, None),
+    "i32x1": _f("I32x1", 1, 32, 0, None),
+    "f64x1": _f("F64x1", 1, 0, 0, 64, fw=64),
+    "f32x2": _f("F32x2", 2, 0, 0, 32),
+    "i24x1": _f(None, 1, 24, 0, None, gen=(2, 1)),
+    "i24x2": _f(None, 2, 24, 0, None, gen=(2, 2)),
+    "u24x1": _f(None, 1, 24, 1 << 23, None, sbits=32, gen=(8, 1)),
+    "u24x3": _f(None, 3, 24, 1 << 23, None, sbits=32, gen=(8, 3)),
+    "i48x1": _f(None, 1, 48, 0, None, fw=64, gen=(4, 1)),
+    "i48x2": _f(None, 2, 48, 0, None, fw=64, gen=(4, 2)),
+    "u48x1": _f(None, 1, 48, 1 << 47, None, sbits=64, fw=64, gen=(10, 1)),
+    "u48x2": _f(None, 2, 48, 1 << 47, None, sbits=64, fw=64, gen=(10, 2)),
+    "i8x2": _f(None, 2, 8, 0, None, gen=(0, 2)),
+    "u16x1": _f(None, 1, 16, 1 << 15, None, gen=(7, 1)),
+    "u32x2": _f(None, 2, 32, 1 << 31, None, gen=(9, 2)),
+    "i64x1": _f(None, 1, 64, 0, None, fw=64, gen=(5, 1)),
+    "u64x1": _f(None, 1, 64, 1 << 63, None, fw=64, gen=(11, 1)),
+    "u64x2": _f(None, 2, 64, 1 << 63, None, fw=64, gen=(11, 2)),
 }
+GEN_FMTS = [k for k, v in FMTS.items() if v["gen"]]
+HAND_FMTS = [k for k, v in FMTS.items() if not v["gen"]]
+HEADER_GEN = "From Dasp Require Import Signal.SigRun Signal.SigRunGen."
+CHECK_GEN = "check_gen"
 UNARY = ["map", "scale", "offset", "scalepc", "offsetpc", "clip", "inspect"]
 BINARY = ["zip", "add", "mul"]
 
@@ -31,6 +56,15 @@ def f64bits(x):
 
 def fbits(fm, x):
     return f64bits(x) if FMTS[fm]["flt"] == 64 else f32bits(x)
+
+
+def cbits(fm, x):
+    """bits of x in the Float companion format of fm"""
+    return f64bits(x) if FMTS[fm]["fw"] == 64 else f32bits(x)
+
+
+def cval(fm, b):
+    return struct.unpack("<d", struct.pack("<Q", b))[0] if FMTS[fm]["fw"] == 64 else struct.unpack("<f", struct.pack("<I", b))[0]
 
 
 # ---------------------------------------------------------------------------
@@ -149,7 +183,10 @@ def build(item, ops=None):
     fm = it["fmt"]
     parts = [fm] + ["B " + text(b) for b in it["bases"]] + [op_text(o) for o in it["ops"]]
     it["line"] = " ; ".join(parts)
-    it["coq"] = (f"ZCase {FMTS[fm]['coq']} [" + "; ".join(coq(b) for b in it["bases"]) + "] [" +
+    g = FMTS[fm]["gen"]
+    head = f"GCase {g[0]}%Z {g[1]}%Z" if g else f"ZCase {FMTS[fm]['coq']}"
+    it["gen"] = bool(g)
+    it["coq"] = (head + " [" + "; ".join(coq(b) for b in it["bases"]) + "] [" +
                  "; ".join(op_coq(o) for o in it["ops"]) + "]")
     return it
 
@@ -236,6 +273,8 @@ def bound(t, fm, base_bounds=(), arg_bound=0):
     mx = (1 << (spec["bits"] - 1)) - 1
     full = mx + 1
     off = spec["off"]
+    scale = 1 << (spec["sbits"] - spec["bits"])  # Signed-companion units per unit of own signed amplitude
+    su = lambda c: -((-abs(c)) // scale)  # |c| in own units, rounded up
     k = t[0]
     if k == "iter":
         return max([abs(x - off) for fr in t[2] for x in fr] + [0])
@@ -267,32 +306,40 @@ def bound(t, fm, base_bounds=(), arg_bound=0):
         if a + b > mx:
             raise Overflow()
         return a + b
-    if k == "mul":
-        raise Overflow()
+    if k == "mul":  # second source = to_float_frame of a same-format tree: magnitudes <= 1
+        if not spec["gen"]:
+            raise Overflow()
+        b = rec(t[1])
+        rec(t[2])
+        return min(full, b + (b >> 20) + 1)
     if k == "offset":
         b = rec(t[2])
-        if b + abs(t[1]) > mx:
+        if b + su(t[1]) > mx:
             raise Overflow()
-        return b + abs(t[1])
+        return b + su(t[1])
     if k == "offsetpc":
         b = rec(t[2])
-        c = max(abs(x) for x in t[1])
+        c = max(su(x) for x in t[1])
         if b + c > mx:
             raise Overflow()
         return b + c
     if k in ("scale", "scalepc"):
         b = rec(t[2])
         amps = [t[1]] if k == "scale" else t[1]
-        vals = [abs(struct.unpack("<f", struct.pack("<I", a))[0]) for a in amps]
+        vals = [abs(cval(fm, a)) for a in amps]
+        if spec["bits"] in (24, 48) and not all(v <= 1.0 for v in vals):
+            # a product outside [-1, 1) leaves the 24/48-bit range through new_unchecked (C15's subject):
+            # later conversions then overflow in debug builds
+            raise Overflow()
         if all(v <= 1.0 for v in vals):
             return min(full, b + (b >> 20) + 1)
         return full
     if k == "clip":
         b = rec(t[2])
         th = t[1]
-        if abs(th) > mx:
+        if abs(th) > mx * scale:
             raise Overflow()
-        return min(b, th) if th >= 0 else abs(th)
+        return min(b, su(th)) if th >= 0 else su(th)
     if k in ("inspect", "delay"):
         return rec(t[2])
     raise ValueError(k)
@@ -310,8 +357,11 @@ def float_cost(t, fm, bases=()):
             if k == "clip":
                 c += 3 * spec["n"]
         else:
-            if k in ("scale", "scalepc"):
-                c += 5 * spec["n"]
+            w = 10 if spec["gen"] else 5  # the generated model is evaluated AND guarded by the specification value
+            if k in ("scale", "scalepc", "mul"):
+                c += w * spec["n"]
+            if k == "map" and nd[2] == 8:
+                c += 4 * spec["n"]
     return c
 
 
@@ -347,7 +397,7 @@ class Gen:
         if self.wide:
             v = r.choice([-mx - 1, -mx, mx, mx - 1, 0, 1, -1, r.range(-mx - 1, mx), r.range(-mx - 1, mx)])
         else:
-            amp = {8: 2, 16: 200, 32: 1 << 20}[s["bits"]]
+            amp = {8: 2, 16: 200, 24: 3000, 32: 1 << 20, 48: 1 << 30, 64: 1 << 40}[s["bits"]]
             v = r.range(-amp, amp)
         return v + s["off"]
 
@@ -357,28 +407,33 @@ class Gen:
         if s["flt"]:
             return self.sample()
         mx = (1 << (s["bits"] - 1)) - 1
+        scale = 1 << (s["sbits"] - s["bits"])
+        res = r.below(scale) if r.chance(1, 2) else 0  # Signed-companion values between two own steps
         if self.wide:
-            return r.choice([0, 1, -1, mx, -mx, r.range(-mx, mx)])
-        amp = {8: 1, 16: 100, 32: 1 << 19}[s["bits"]]
-        return r.range(-amp, amp)
+            return r.choice([0, 1, -1, mx * scale, -mx * scale, r.range(-mx, mx) * scale])
+        amp = {8: 1, 16: 100, 24: 1000, 32: 1 << 19, 48: 1 << 29, 64: 1 << 39}[s["bits"]]
+        return r.range(-amp, amp - 1) * scale + res
 
     def thresh(self):
         r, s = self.r, self.spec
         if s["flt"]:
             return r.choice([fbits(self.fm, x) for x in (0.5, 0.25, 1.0, 0.0, 0.75, -0.5, float("inf"), float("nan"))] + [self.sample()])
         mx = (1 << (s["bits"] - 1)) - 1
-        amp = {8: 3, 16: 300, 32: 1 << 21}[s["bits"]]
+        scale = 1 << (s["sbits"] - s["bits"])
+        amp = {8: 3, 16: 300, 24: 4000, 32: 1 << 21, 48: 1 << 31, 64: 1 << 41}[s["bits"]]
         if self.wide:
-            return r.choice([0, 1, mx, mx - 1, -1, -mx, r.range(0, mx)])
-        return r.choice([0, 1, r.range(0, amp), r.range(0, amp), r.range(0, amp), -r.range(1, amp)])
+            return r.choice([0, 1, mx, mx - 1, -1, -mx, r.range(0, mx)]) * scale
+        return r.choice([0, 1, r.range(0, amp) * scale + r.below(scale), r.range(0, amp) * scale, r.range(0, amp) * scale,
+                         -r.range(1, amp) * scale])
 
     def float_const(self):
         """a Float-format constant (scale_amp); f32 for the integer formats"""
         r, s = self.r, self.spec
         if s["flt"]:
             return r.choice([fbits(self.fm, x) for x in (0.5, -1.0, 0.75, 1.5, 2.0, 0.0, -0.25)] + [self.sample()])
-        return r.choice([f32bits(x) for x in (0.5, -0.5, 1.0, 0.25, 0.999, -1.0, 0.3333, 0.75)] +
-                        ([f32bits(1.5), f32bits(-2.0), f32bits(float("nan")), f32bits(float("inf")), f32bits(1e10)] if self.wide else []))
+        cb = lambda x: cbits(self.fm, x)
+        return r.choice([cb(x) for x in (0.5, -0.5, 1.0, 0.25, 0.999, -1.0, 0.3333, 0.75, -0.3333, 0.7, -0.123)] +
+                        ([cb(1.5), cb(-2.0), cb(float("nan")), cb(float("inf")), cb(1e10)] if self.wide else []))
 
     def frame(self):
         return [self.sample() for _ in range(self.spec["n"])]
@@ -432,8 +487,10 @@ class Gen:
         if kind == "zip":
             return ["zip", self.fresh(), self.r.below(2), a, b]
         if kind == "mul" and not self.spec["flt"]:
+            if self.spec["gen"]:  # second source: the same-format tree through Frame::to_float_frame
+                return ["mul", a, ["map", self.fresh(), 8, 0, b]]
             kind = "add"
-        if kind == "add" and self.fm == "u8x3":
+        if kind == "add" and self.spec["off"]:  # unsigned: second source through Frame::to_signed_frame
             b = ["map", self.fresh(), 9, 0, b]
         return [kind, a, b]
 
@@ -503,9 +560,37 @@ def valid(item):
 
 
 def correspond(binpath, items, tag):
-    """F.correspond with smaller coqc files (a 400-case file of trees costs ~0.9 GB in coqc);
-    the framework retries shards killed under memory pressure"""
-    return F.correspond(binpath, items, HEADER, CHECK, tag, per_file=120)
+    """F.correspond with smaller coqc files (a 400-case file of trees costs ~0.9 GB in coqc); the cases of the
+    five hand instances are evaluated by Signal/SigRun.v, those over the C03 sample model by Signal/SigRunGen.v"""
+    idx_h = [i for i, it in enumerate(items) if not it.get("gen")]
+    idx_g = [i for i, it in enumerate(items) if it.get("gen")]
+    outl = [None] * len(items)
+    bad, errors = [], []
+    for idx, header, check, sub in ((idx_h, HEADER, CHECK, tag), (idx_g, HEADER_GEN, CHECK_GEN, tag + "_gen")):
+        if not idx:
+            continue
+        o, b, e = F.correspond(binpath, [items[i] for i in idx], header, check, sub, per_file=120)
+        errors += e
+        if len(o) == len(idx):
+            for j, i in enumerate(idx):
+                outl[i] = o[j]
+        bad += [idx[j] for j in b]
+    if any(o is None for o in outl):
+        outl = [o or "" for o in outl]
+    return outl, sorted(bad), errors
+
+
+def regenerate_sample_model(rep):
+    """the instances over the C03 sample model run the conversions GENERATED from the current /repo
+    (same regeneration as lib/props/c03.py)"""
+    try:
+        import props.c03 as c03
+        err, changed = c03.regenerate()
+    except Exception as e:  # noqa: BLE001
+        err, changed = f"{type(e).__name__}: {e}", []
+    if err:
+        rep.violation("translate", {"kind": "model cannot be regenerated: the translators do not recognise the current dasp_sample sources (the committed generated model is used for the rest of this run)", "error": err}, no_input=True)
+    return changed
 
 
 def load_corpus(prop):
@@ -541,7 +626,9 @@ def case_nontrivial(it):
 
 def run_check(rep, prop, tier, seed, gen_cases, rule, meta_expl, theorems_note):
     rng = F.Rng(seed)
+    regenerated = regenerate_sample_model(rep)
     info = F.standard_proof_phase(rep, prop)
+    info["regenerated"] = regenerated
     ok, blog, binpath = F.harness_build(BIN)
     if not ok:
         rep.violation("harness_build", {"kind": "harness does not build against /repo", "log": blog[-4000:]}, no_input=True)
@@ -582,7 +669,7 @@ def run_check(rep, prop, tier, seed, gen_cases, rule, meta_expl, theorems_note):
 
         small = F.shrink_ops(it, build, fails)
         rc, out, _ = F.run_bin(binpath, [small["line"]])
-        _, model = F.coq_eval(tag, HEADER, f"run_case ({small['coq']})")
+        _, model = model_eval(tag, small)
         rep.violation(f"case{idx}", {
             "kind": "model/implementation disagreement: the dasp_signal adaptor tree does not behave as the proved model",
             "case": {k: small[k] for k in ("fmt", "bases", "ops")},
@@ -603,8 +690,9 @@ def finish(rep, prop, info, n, nontriv, dist, samples, rule, expl, tnote, extra)
         "trusted_base": F.TRUSTED_COMMON + [
             "axioms: none (every theorem of props/%s.v is closed under the global context)" % prop,
             "modelled, not verified: Rust closures as pure functions, iterators as lists, usize as nat; Base/Float.v (Flocq) as the IEEE model of the float instances (validated against rustc by lib/floatbase.py in this run)",
+            "instances over all 14 sample formats: translate/conv2coq.py + translate/sampletable2coq.py (regenerated from /repo in this run), Sample/SampleOps.v, Frame/FrameOps.v (the C03 model); every generated add_amp/mul_amp/to_signed result is additionally compared with the specification value and Frame::EQUILIBRIUM is the true equilibrium, so a wrong constant or conversion shows as a disagreement",
             tnote],
-        "theorems": th, "axioms_reported": info.get("axioms", []),
+        "theorems": th, "axioms_reported": info.get("axioms", []), "regenerated_files": info.get("regenerated", []),
         "evaluations": n, "distinct_nontrivial": nontriv, "rule": rule,
         "samples": samples, "input_distribution": dist, "disagreements": len(extra.get("bad", ())),
         "explanation": expl,
@@ -615,12 +703,18 @@ def finish(rep, prop, info, n, nontriv, dist, samples, rule, expl, tnote, extra)
         "the harness observes through the public API only (local Box<dyn Signal> wrapper, instrumented leaves and closures)"])
 
 
+def model_eval(tag, it):
+    if it.get("gen"):
+        return F.coq_eval(tag, HEADER_GEN, f"run_gcase ({it['coq']})")
+    return F.coq_eval(tag, HEADER, f"run_case ({it['coq']})")
+
+
 def replay(prop, path):
     j = json.load(open(path))
     it = build(j["case"])
     ok, blog, binpath = F.harness_build(BIN)
     rc, out, _ = F.run_bin(binpath, [it["line"]])
-    _, model = F.coq_eval(prop.lower(), HEADER, f"run_case ({it['coq']})")
+    _, model = model_eval(prop.lower(), it)
     print("case:", it["line"])
     print("implementation:", out)
     print("model:", model)
